@@ -238,9 +238,20 @@ func (c *ShipConnection) endHandshakeWithError(err error) {
 func (c *ShipConnection) setHandshakeTimer(timerType timeoutTimerType, duration time.Duration) {
 	c.stopHandshakeTimer()
 
+	// the connection may get closed from another goroutine while a timer is being armed
+	if c.isHandshakeTimerClosed() {
+		return
+	}
+
 	c.setHandshakeTimerRunning(true)
 	c.setHandshakeTimerType(timerType)
 	generation := c.nextHandshakeTimerGeneration()
+
+	// closed meanwhile, and the close did not find this timer running yet: do not start it
+	if c.isHandshakeTimerClosed() {
+		c.stopHandshakeTimer()
+		return
+	}
 
 	go func() {
 		select {
@@ -294,6 +305,20 @@ func (c *ShipConnection) isHandshakeTimerGeneration(generation uint64) bool {
 	defer c.handshakeTimerMux.Unlock()
 
 	return c.handshakeTimerGeneration == generation
+}
+
+func (c *ShipConnection) setHandshakeTimerClosed() {
+	c.handshakeTimerMux.Lock()
+	defer c.handshakeTimerMux.Unlock()
+
+	c.handshakeTimerClosed = true
+}
+
+func (c *ShipConnection) isHandshakeTimerClosed() bool {
+	c.handshakeTimerMux.Lock()
+	defer c.handshakeTimerMux.Unlock()
+
+	return c.handshakeTimerClosed
 }
 
 func (c *ShipConnection) setHandshakeTimerRunning(value bool) {
